@@ -61,6 +61,10 @@ class GPStub:
             return BoundLib(self, name)
         if name == "models":
             return self.models
+        if name == "train_targets":          # gpytorch ExactGP: the data it conditions on
+            return self.gp_data[1]
+        if name == "train_inputs":
+            return (self.gp_data[0],)
         raise Unsupported("gp attribute " + name)
 
     def method(self, ex, st, name, args):
@@ -163,13 +167,14 @@ _add_sample("CorrelatedExactGPyTorchModel", "MultitaskExactGPModel", 2, 3, 2, 1,
 _add_sample("IndependentExactGPyTorchModel", "BatchIndependentExactGPModel", 1, 2, 1, 2, 0)
 
 
-def _update(cls, kind, gpk, d, m, held, first):
-    @task("C15", "%s.update[d=%d,m=%d,held=%d,%s]" % (cls, d, m, held, "first" if first else "again"))
+def _update(cls, kind, gpk, d, m, held, first, old_n=1):
+    @task("C15", "%s.update[d=%d,m=%d,held=%d,%s]" % (cls, d, m, held, "first" if first else ("again" if old_n == 1 else "again,old data of %d samples" % old_n)))
     def _t(t):
         install_gp_classes(t, m)
         obj = wrapper(t, cls, d, m, held, kind)
         if not first:
-            obj.fields["model"] = GPStub(gpk, L.fresh_array("old_i", (1, d)), L.fresh_array("old_t", (1, m)), m)
+            # the inner GP currently conditions on OTHER data (old_n samples; possibly as many as are held now: a replaced data set)
+            obj.fields["model"] = GPStub(gpk, L.fresh_array("old_i", (old_n, d)), L.fresh_array("old_t", (old_n, m)), m)
         paths = t.run(GP, "GPyTorchMultioutputExactModel.update", [], self_val=obj)
         t.no_raise(paths)
 
@@ -189,6 +194,8 @@ for _first in (True, False):
     _update("CorrelatedExactGPyTorchModel", "MultitaskExactGPModel", "multitask", 2, 2, 3, _first)
     _update("IndependentExactGPyTorchModel", "BatchIndependentExactGPModel", "batch", 1, 3, 2, _first)
 _update("IndependentExactGPyTorchModel", "BatchIndependentExactGPModel", "batch", 2, 2, 0, False)
+_update("IndependentExactGPyTorchModel", "BatchIndependentExactGPModel", "batch", 2, 2, 2, False, old_n=2)
+_update("CorrelatedExactGPyTorchModel", "MultitaskExactGPModel", "multitask", 2, 2, 3, False, old_n=3)
 
 
 def _predict(cls, gpk, d, m, N, extra_col):
@@ -410,13 +417,14 @@ def _list_add_raises(t):
     t.prove("two_dimensional_targets_raise_ValueError", z3.BoolVal(bool(p2) and all(p.kind == "raise" and p.value[0] == "ValueError" for p in p2)))
 
 
-def _list_update(d, m, held, first):
-    @task("C15", "GPyTorchModelListExactModel.update[d=%d,m=%d,held=%s,%s]" % (d, m, "".join(map(str, held)), "first" if first else "again"))
+def _list_update(d, m, held, first, same_size=False):
+    @task("C15", "GPyTorchModelListExactModel.update[d=%d,m=%d,held=%s,%s]" % (d, m, "".join(map(str, held)), "first" if first else ("again" if not same_size else "again,old data of the same sizes")))
     def _t(t):
         install_list_classes(t, d)
         obj = list_wrapper(t, d, m, held)
         if not first:
-            obj.fields["model"] = ModelListStub([SingleStub(L.fresh_array("oi%d" % i, (1, d)), L.fresh_array("ot%d" % i, (1,)), d, "old%d" % i) for i in range(m)])
+            old_n = (lambda i: held[i]) if same_size else (lambda i: 1)
+            obj.fields["model"] = ModelListStub([SingleStub(L.fresh_array("oi%d" % i, (old_n(i), d)), L.fresh_array("ot%d" % i, (old_n(i),)), d, "old%d" % i) for i in range(m)])
         paths = t.run(GP, "GPyTorchModelListExactModel.update", [], self_val=obj)
         t.no_raise(paths)
 
@@ -435,6 +443,7 @@ def _list_update(d, m, held, first):
 _list_update(2, 2, (2, 1), True)
 _list_update(2, 2, (2, 1), False)
 _list_update(1, 3, (0, 2, 0), False)
+_list_update(2, 2, (2, 1), False, same_size=True)
 
 
 @task("C15", "GPyTorchModelListExactModel.clear_data")
@@ -684,3 +693,101 @@ def list_factory_replay(cnt):
 
 _list_factory(0)
 _list_factory(1)
+
+
+# ----------------------------------------------------------------------------------------------
+# __init__: the likelihood is the model's OWN noise.  gpytorch's MultitaskGaussianLikelihood is constructed by contract
+# (recorded); a full (m x m) noise covariance needs num_tasks = m and a task-noise factor of FULL rank m (gpytorch stores a
+# rank-`rank` factor of task_noise_covar: a smaller rank silently replaces the noise by a low-rank approximation), and the
+# matrix itself assigned to task_noise_covar; a scalar / per-objective noise uses rank 0 and the `noise` attribute.
+# ----------------------------------------------------------------------------------------------
+class LikStub:
+    def __init__(self, kwargs):
+        self.kwargs = dict(kwargs)
+        self.attrs = {}
+        self.calls = []
+
+    def getattr(self, ex, st, name):
+        if name in self.attrs:
+            return self.attrs[name]
+        return LikMethod(self, name)
+
+    def setattr(self, ex, st, name, v):
+        self.attrs[name] = v
+
+    def clone(self, memo):
+        return self
+
+
+class LikMethod:
+    def __init__(self, owner, name):
+        self.owner, self.name = owner, name
+
+    def call(self, ex, st, args, kwargs, node):
+        self.owner.calls.append((self.name, list(args), dict(kwargs)))
+        return self.owner if self.name == "to" else None
+
+    def clone(self, memo):
+        return self
+
+
+def _init(noise_kind, m, d=2):
+    @task("C15", "GPyTorchMultioutputExactModel.__init__[noise=%s,m=%d]" % (noise_kind, m))
+    def _t(t):
+        t.mode = "m=%d objectives, noise %s (symbolic entries); gpytorch likelihood constructor by contract" % (m, noise_kind)
+        if noise_kind == "matrix":
+            nv = t.inp("noise_var", InArr("nv", (m, m)))
+        elif noise_kind == "vector":
+            nv = t.inp("noise_var", InArr("nv", (m,)))
+        else:
+            nv = t.inp("noise_var", InReal("nv"))
+        liks = []
+
+        def lib_hook(ex, st, dotted, args, kwargs, node):
+            if dotted == "gpytorch.likelihoods.MultitaskGaussianLikelihood":
+                lk = LikStub(kwargs)
+                liks.append(lk)
+                return lk
+            if dotted.startswith("gpytorch.constraints."):
+                return Opaque("Constraint", z3.Const("constraint!%d" % V.fresh_id(), z3.DeclareSort("Constraint")))
+            return NotImplemented
+        t.hooks["lib"] = lib_hook
+        obj = SObj(cls_ref(GP, "IndependentExactGPyTorchModel"), {})
+        kind = cls_ref(GP, "BatchIndependentExactGPModel")
+        paths = t.run(GP, "GPyTorchMultioutputExactModel.__init__", [d, m, nv, kind], self_val=obj)
+        t.must_fail()
+        t.no_raise(paths)
+        NV = t.inputs["noise_var"].snapshot if noise_kind != "scalar" else None
+
+        def goal(p):
+            o = find_obj(p.st, obj.oid)
+            if len(liks) != 1 or o.fields.get("likelihood") is not liks[0]:
+                return False
+            lk = liks[0]
+            cs = [z3.BoolVal(lk.kwargs.get("num_tasks") == m), z3.BoolVal(o.fields.get("output_dim") == m and o.fields.get("input_dim") == d),
+                  z3.BoolVal(o.fields.get("model") is None)]
+            ti, tt = o.fields.get("train_inputs"), o.fields.get("train_targets")
+            cs.append(z3.BoolVal(getattr(ti, "shape", None) == (0, d) and getattr(tt, "shape", None) == (0, m)))
+            if noise_kind == "matrix":
+                cov = lk.attrs.get("task_noise_covar")
+                cs.append(z3.BoolVal(lk.kwargs.get("rank") == m and lk.kwargs.get("has_global_noise") is False and "noise" not in lk.attrs))
+                cs.append(z3.BoolVal(isinstance(cov, L.SArr) and cov.shape == (m, m)))
+                if isinstance(cov, L.SArr) and cov.shape == (m, m):
+                    cs += [V.R(cov.a[i, j]) == V.R(NV.a[i, j]) for i in range(m) for j in range(m)]
+            else:
+                noise = lk.attrs.get("noise")
+                cs.append(z3.BoolVal(lk.kwargs.get("rank") == 0 and lk.kwargs.get("has_task_noise") is False and "task_noise_covar" not in lk.attrs))
+                if noise_kind == "vector":
+                    cs.append(z3.BoolVal(isinstance(noise, L.SArr) and noise.shape == (m,)))
+                    if isinstance(noise, L.SArr) and noise.shape == (m,):
+                        cs += [V.R(noise.a[i]) == V.R(NV.a[i]) for i in range(m)]
+                else:
+                    cs.append(V.R(noise.flat()[0] if isinstance(noise, L.SArr) else noise) == V.R(nv) if noise is not None else z3.BoolVal(False))
+            return z3.And(*cs)
+        t.prove_paths("likelihood_is_the_models_own_noise(full_rank_task_covariance_or_plain_noise)_and_the_model_starts_empty", paths, goal)
+    return _t
+
+
+_init("matrix", 2)
+_init("matrix", 3)
+_init("scalar", 2)
